@@ -448,6 +448,9 @@ func (cur *FieldMask) addPath(path string, curDesc *thrift_reflection.TypeDescri
 
 	// for scalar type, isAll is always true
 	cur.isAll = true
+	// the path ends here and selects the whole value: sub-masks left by
+	// earlier, longer paths no longer mean anything (and are not serialized)
+	cur.all, cur.fdMask, cur.intMask, cur.strMask = nil, nil, nil, nil
 	return nil
 }
 
